@@ -121,6 +121,9 @@ type Object struct {
 	pre  bool // existed before the function under verification started (caller visible)
 	global bool  // a package-level variable
 	kind string // "" memory cell; "map" / "chan" / "arr": storage behind a map, channel or slice value
+	splitOf  *Term   // storage of strings.Split(splitOf, splitSep)'s result (immutable metadata)
+	splitSep string
+	splitLen *Term
 }
 
 func (o *Object) String() string { return fmt.Sprintf("#%d(%s)", o.id, o.name) }
